@@ -126,7 +126,7 @@ func ClientDo(c *http.Client, r *http.Request) (*http.Response, error) {
 		if ri.body != nil && Bool("http.bodyReadBeforeFailure") {
 			ReaderDrain(ri.body)
 		}
-		Log(Ev{K: "http.resp", U: []uint64{0, 0}, B: [][]byte{nil}})
+		Log(Ev{K: "http.resp", U: []uint64{0, 0, 0}, B: [][]byte{nil}})
 		return nil, errTransport
 	}
 	if ri.body != nil {
@@ -138,8 +138,10 @@ func ClientDo(c *http.Client, r *http.Request) (*http.Response, error) {
 	}
 	status := U64("http.status")
 	Assume(status >= 100 && status < 600)
-	Log(Ev{K: "http.resp", U: []uint64{1, status}, B: [][]byte{[]byte(final.Method)}})
-	return &http.Response{StatusCode: int(status), Status: Str("http.statusText"), Body: &StrReader{S: Str("http.respBody")}, Request: final}, nil
+	// the response body arrives over the same connection: reading it may fail
+	readFails := Param("io_faults", 0) == 1 && Bool("http.bodyReadFails")
+	Log(Ev{K: "http.resp", U: []uint64{1, status, IteU64(readFails, 1, 0)}, B: [][]byte{[]byte(final.Method)}})
+	return &http.Response{StatusCode: int(status), Status: Str("http.statusText"), Body: &StrReader{S: Str("http.respBody"), FailRead: readFails}, Request: final}, nil
 }
 
 // ---------- server side ----------
